@@ -111,3 +111,16 @@ package mutation
 //@        (forall i int :: {rjc.Spec.Option.Options[i]} 0 <= i && i < len(rjc.Spec.Option.Options) ==> (options.optKey(rjc.Spec.Option.Options[i].Name) in rj.Spec.Substitutions))
 //@   ensures [C18] nothing-but-options-and-explicit: rjc != nil && len(result.Errors) == 0 ==>
 //@        (forall k string :: (k in rj.Spec.Substitutions) ==> old(k in rj.Spec.Substitutions) || (rjc.Spec.Option != nil && (exists i int :: 0 <= i && i < len(rjc.Spec.Option.Options) && k == options.optKey(rjc.Spec.Option.Options[i].Name))))
+
+// A schedule change on update is stamped with the time of the update, unless the submitter supplied a later stamp (C03:
+// the cron scheduler re-bases a JobConfig at that stamp; C16). "Changed" is Semantic.DeepEqual of the old schedule and the new
+// one with the old stamp (semEq, an ASSUMED equivalence).
+//@ func Mutator.MutateUpdateJobConfig
+//@   tags C03, C16
+//@   requires oldRjc != nil && rjc != nil
+//@   modifies clock, rjc.Spec.Schedule.LastUpdated
+//@   ensures [C03,C16] stamp-only-moves-to-now-or-stays: rjc.Spec.Schedule != nil ==>
+//@        (rjc.Spec.Schedule.LastUpdated == old(rjc.Spec.Schedule.LastUpdated) || (rjc.Spec.Schedule.LastUpdated != nil && ns(rjc.Spec.Schedule.LastUpdated.Time) == clock))
+//@   ensures [C03,C16] a-later-stamp-from-the-submitter-is-kept: rjc.Spec.Schedule != nil && old(rjc.Spec.Schedule.LastUpdated) != nil && !old(rjc.Spec.Schedule.LastUpdated.Time.IsZero())
+//@        && old(ns(rjc.Spec.Schedule.LastUpdated.Time)) > clock ==> rjc.Spec.Schedule.LastUpdated == old(rjc.Spec.Schedule.LastUpdated)
+//@   ensures [C16] nothing-else-changes: rjc.Spec.Schedule == old(rjc.Spec.Schedule) && clock >= old(clock) && len(result.Errors) == 0
